@@ -311,7 +311,7 @@ func checkC15(c *Ctx, r *Report) {
 			r.Obls = append(r.Obls, o)
 		}
 	}
-	r.Floor("W3-idempotent", n, 10)
+	r.Floor("W3-idempotent", n, 6)
 	checkCLITarget(c, r)
 }
 
